@@ -104,7 +104,8 @@ def jZone (j : Json) : P Zone := do
     let a ← jArr p
     if a.size ≠ 2 then throw "transition pair"
     pure (← jInt a[0]!, ← jInt a[1]!))
-  pure ⟨init, tr⟩
+  let east := match fldOpt j "east" with | some (.bool b) => b | _ => true
+  pure ⟨init, tr, east⟩
 
 def fv (j : Json) (k : String) : P Val :=
   match fldOpt j k with
